@@ -153,10 +153,15 @@ class UniverseLaws(base.BaseObject):
         if new is self._applies_to:
             return
 
+        old = self._applies_to
         self._applies_to = new
 
-        if self._applies_to is not None:
-            self._applies_to.laws = self
+        # the universe these laws used to govern no longer has them
+        if (old is not None) and (old.laws is self):
+            old.laws = None
+
+        if (new is not None) and (new.laws is not self):
+            new.laws = self
 
 
 class Universe(vertex.Vertex):
@@ -284,21 +289,13 @@ class Universe(vertex.Vertex):
         if new is self._laws:
             return
 
-        # deassignment
-        if self._laws is not None and new is None:
-            # pylint (rightfully) complains about the access to a private
-            # member here -- but, since we're still within the library, this is
-            # allowed.  it would, however, be an issue if a user of edgegraph
-            # were accessing this
-            # pylint: disable-next=protected-access
-            self._laws._applies_to = None
-            self._laws = None
+        old = self._laws
+        self._laws = new
 
-        # new- and re-assignment
-        else:
-            # mypy can't seem to figure out the type-narrowing here.  in this
-            # else clause, self._laws won't be none
-            self._laws.applies_to = None  # type: ignore
+        # the previous laws no longer apply to this universe
+        if (old is not None) and (old.applies_to is self):
+            old.applies_to = None
 
-            self._laws = new
-            self._laws.applies_to = self
+        # and the new ones apply here, and nowhere else
+        if (new is not None) and (new.applies_to is not self):
+            new.applies_to = self
